@@ -1514,6 +1514,13 @@ func SelectStrategy(n *nfa.NFA, re *syntax.Regexp, literals *literal.Seq, config
 		return UseDFA
 	}
 
+	// The DFA limitations guarded against above (non-ASCII case folding, word
+	// boundary + anchor combinations, multiline line anchors) do not depend on
+	// the NFA size: larger patterns with them must not reach the DFA either.
+	if hasCaseInsensitiveUnicode(re) || hasWordBoundaryAnchorCombo(re) || hasMultilineLineAnchor(re) {
+		return UseNFA
+	}
+
 	// Patterns that can match empty string (e.g., `.*`, `a*`, `(a|)`) must use
 	// NFA for FindAll correctness. DFA cache clear during FindAll loop causes
 	// incorrect match positions when the pattern matches empty strings at
